@@ -92,7 +92,8 @@ Definition to_symdata (d : sdata) : symdata :=
 Inductive dkind :=
   | DRedefine | DSegmentRange | DUnknownDefinition | DFieldNotAllowed | DMissingFields | DConfigKey
   | DBranchTooFar | DInvalidInstruction | DUnknownIdentifier | DNotInteger | DNotString
-  | DEval (e : everr) | DImportDefined | DAlign | DInvalidName | DNotConverged.
+  | DEval (e : everr) | DImportDefined | DAlign | DInvalidName | DNotConverged
+  | DPcRange.     (* C06: `* =` / segment start / pc outside 0..$10000, or a relocated address below 0 *)
 Record diag := mkDiag { d_kind : dkind; d_span : option span; d_path : ipath; d_nums : list Z }.
 
 Definition binop_eqb (a b : binop) : bool :=
@@ -115,7 +116,7 @@ Definition dkind_eqb (a b : dkind) : bool :=
   | DFieldNotAllowed, DFieldNotAllowed | DMissingFields, DMissingFields | DConfigKey, DConfigKey
   | DBranchTooFar, DBranchTooFar | DInvalidInstruction, DInvalidInstruction | DUnknownIdentifier, DUnknownIdentifier
   | DNotInteger, DNotInteger | DNotString, DNotString | DImportDefined, DImportDefined | DAlign, DAlign
-  | DInvalidName, DInvalidName | DNotConverged, DNotConverged => true
+  | DInvalidName, DInvalidName | DNotConverged, DNotConverged | DPcRange, DPcRange => true
   | DEval x, DEval y => everr_eqb x y
   | _, _ => false
   end.
@@ -157,6 +158,7 @@ Record ctx := mkCtx {
   current_segment : option ident;
   symbols : symtab symbol;
   undefined : list undef;
+  changed : list undef;                             (* symbols that got another value during this pass *)
   current_scope : ipath;
   current_scope_nx : nat;
   next_macro_scope_id : nat;
@@ -165,25 +167,28 @@ Record ctx := mkCtx {
 }.
 
 Definition set_symbols (c : ctx) (t : symtab symbol) : ctx :=
-  mkCtx (pass_idx c) (segments c) (current_segment c) t (undefined c) (current_scope c) (current_scope_nx c)
+  mkCtx (pass_idx c) (segments c) (current_segment c) t (undefined c) (changed c) (current_scope c) (current_scope_nx c)
         (next_macro_scope_id c) (g_vch c) (g_trace c).
 Definition set_segments (c : ctx) (s : list (ident * segment)) (cur : option ident) : ctx :=
-  mkCtx (pass_idx c) s cur (symbols c) (undefined c) (current_scope c) (current_scope_nx c)
+  mkCtx (pass_idx c) s cur (symbols c) (undefined c) (changed c) (current_scope c) (current_scope_nx c)
         (next_macro_scope_id c) (g_vch c) (g_trace c).
 Definition set_undefined (c : ctx) (u : list undef) : ctx :=
-  mkCtx (pass_idx c) (segments c) (current_segment c) (symbols c) u (current_scope c) (current_scope_nx c)
+  mkCtx (pass_idx c) (segments c) (current_segment c) (symbols c) u (changed c) (current_scope c) (current_scope_nx c)
+        (next_macro_scope_id c) (g_vch c) (g_trace c).
+Definition set_changed (c : ctx) (u : list undef) : ctx :=
+  mkCtx (pass_idx c) (segments c) (current_segment c) (symbols c) (undefined c) u (current_scope c) (current_scope_nx c)
         (next_macro_scope_id c) (g_vch c) (g_trace c).
 Definition set_scope (c : ctx) (p : ipath) (nx : nat) : ctx :=
-  mkCtx (pass_idx c) (segments c) (current_segment c) (symbols c) (undefined c) p nx
+  mkCtx (pass_idx c) (segments c) (current_segment c) (symbols c) (undefined c) (changed c) p nx
         (next_macro_scope_id c) (g_vch c) (g_trace c).
 Definition set_macro_id (c : ctx) (n : nat) : ctx :=
-  mkCtx (pass_idx c) (segments c) (current_segment c) (symbols c) (undefined c) (current_scope c) (current_scope_nx c)
+  mkCtx (pass_idx c) (segments c) (current_segment c) (symbols c) (undefined c) (changed c) (current_scope c) (current_scope_nx c)
         n (g_vch c) (g_trace c).
 Definition bump_vch (c : ctx) : ctx :=
-  mkCtx (pass_idx c) (segments c) (current_segment c) (symbols c) (undefined c) (current_scope c) (current_scope_nx c)
+  mkCtx (pass_idx c) (segments c) (current_segment c) (symbols c) (undefined c) (changed c) (current_scope c) (current_scope_nx c)
         (next_macro_scope_id c) (S (g_vch c)) (g_trace c).
 Definition log (c : ctx) (e : event) : ctx :=
-  mkCtx (pass_idx c) (segments c) (current_segment c) (symbols c) (undefined c) (current_scope c) (current_scope_nx c)
+  mkCtx (pass_idx c) (segments c) (current_segment c) (symbols c) (undefined c) (changed c) (current_scope c) (current_scope_nx c)
         (next_macro_scope_id c) (g_vch c) (e :: g_trace c).
 
 (* ------------------------------------------------------------------ monad *)
@@ -256,6 +261,10 @@ Definition redefinition (existing new : symbol) : bool :=
 Definition flag_undefined (c : ctx) (id : ipath) (sp : option span) : ctx :=
   set_undefined c (set_insert (current_scope_nx c, id, sp) (undefined c)).
 
+(* `self.changed.insert(..)`: the symbol needs another pass, but it is not undefined *)
+Definition flag_changed (c : ctx) (id : ipath) (sp : option span) : ctx :=
+  set_changed c (set_insert (current_scope_nx c, id, sp) (changed c)).
+
 Definition add_symbol (id : ipath) (sym : symbol) : M nat := fun c =>
   let path := current_scope c ++ id in
   let is_var := symtype_eqb (s_ty sym) TyVariable in
@@ -270,13 +279,13 @@ Definition add_symbol (id : ipath) (sym : symbol) : M nat := fun c =>
             | Some sp => Err [mkDiag DRedefine (Some sp) path []] c
             end
           else
-            let changed := negb (sdata_eqb (s_data existing) (s_data sym)) in
+            let differs := negb (sdata_eqb (s_data existing) (s_data sym)) in
             let c1 := set_symbols c (update_data (symbols c) nx (Some sym)) in
-            let c2 := if changed then (if is_var then bump_vch c1 else flag_undefined c1 id (s_span sym)) else c1 in
+            let c2 := if differs then (if is_var then bump_vch c1 else flag_changed c1 id (s_span sym)) else c1 in
             Ret nx (note c2)
       | None =>
           let c1 := set_symbols c (update_data (symbols c) nx (Some sym)) in
-          let c2 := if is_var then bump_vch c1 else flag_undefined c1 id (s_span sym) in
+          let c2 := if is_var then bump_vch c1 else flag_changed c1 id (s_span sym) in
           Ret nx (note c2)
       end
   | None =>
@@ -486,7 +495,11 @@ Definition define_segment (idspan : span) (l : list cfgpair) : M unit :=
                end) ;;
       initial_pc <- (match try_get_expression l t_start with
                      | Some e => v <- recover (evaluate_expression_as_i64 e) None ;;   (* "Will be marked as undefined and retried later" *)
-                                 ret (match v with Some v => as_usize v | None => 0 end)
+                                 match v with
+                                 | Some v => if negb ((0 <=? v) && (v <=? 65536)) then err1 DPcRange None [t_start] [v]   (* C06: check_address *)
+                                             else ret (as_usize v)
+                                 | None => ret 0
+                                 end
                      | None => ret 0
                      end) ;;
       write <- (match try_get_expression l t_write with
@@ -504,7 +517,11 @@ Definition define_segment (idspan : span) (l : list cfgpair) : M unit :=
                end) ;;
       target <- (match try_get_expression l t_pc with
                  | Some e => v <- evaluate_expression_as_i64 e ;;
-                             ret (match v with Some t => as_usize t | None => initial_pc end)
+                             match v with
+                             | Some t => if negb ((0 <=? t) && (t <=? 65536)) then err1 DPcRange None [t_pc] [t]   (* C06: check_address *)
+                                         else ret (as_usize t)
+                             | None => ret initial_pc
+                             end
                  | None => ret initial_pc
                  end) ;;
       modify (install_segment name (mkSegOpts bank initial_pc write target))
@@ -700,6 +717,7 @@ Definition emit_token_body (fuel : nat) (t : token) : M unit :=
       add_symbol [id] (symbol_ c (Some idspan) (SDMacro idspan args (blk_inner b)) TyConstant) ;;; ret tt
   | TInvoke name nspan args =>
       c <- get ;;
+      modify bump_macro_id ;;;                     (* every invocation has its number, known macro or not *)
       match query_all (symbols c) (current_scope_nx c) [name] with
       | None => abort FDiverge
       | Some nxs =>
@@ -709,7 +727,6 @@ Definition emit_token_body (fuel : nat) (t : token) : M unit :=
               if negb (Nat.eqb (List.length args) (List.length params))
               then err1 (DEval ErrArgCount) (Some nspan) [] []
               else
-                modify bump_macro_id ;;;
                 values <- eval_macro_args args ;;
                 with_scope (macro_scope_name (next_macro_scope_id c)) None (bind_macro_args params values ;;; emit_tokens body)
           end
@@ -718,7 +735,17 @@ Definition emit_token_body (fuel : nat) (t : token) : M unit :=
       v <- evaluate_expression_as_i64 value ;;
       match v with
       | None => ret tt
-      | Some pc => modify (set_current_pc pc)
+      | Some pc =>
+          (* C06: the value is range-checked where it enters the program counter *)
+          if negb ((0 <=? pc) && (pc <=? 65536)) then err1 DPcRange (Some (le_span value)) [] [pc] else
+          c <- get ;;
+          match (match current_segment c with Some n => seg_get (segments c) n | None => None end) with
+          | Some s => match target_offset s with
+                      | Some off => if pc + off <? 0 then err1 DPcRange (Some (le_span value)) [] [pc] else modify (set_current_pc pc)
+                      | None => modify (set_current_pc pc)
+                      end
+          | None => ret tt
+          end
       end
   | TSegment id b =>
       s <- evaluate_expression_as_string id ;;
@@ -801,7 +828,7 @@ Definition after_pass : M unit := c <- get ;; register_segment_symbols (segments
 
 Definition next_pass (c : ctx) : ctx :=
   mkCtx (S (pass_idx c)) (map (fun ns => (fst ns, seg_reset (snd ns))) (segments c)) (current_segment c)
-        (symbols c) (undefined c) (current_scope c) (current_scope_nx c) 0%nat 0%nat [].
+        (symbols c) (undefined c) [] (current_scope c) (current_scope_nx c) 0%nat 0%nat [].
 
 Record options := mkOptions { opt_pc : Z; opt_constants : list (ident * Z) }.
 Definition default_options : options := mkOptions default_pc [].
@@ -809,7 +836,7 @@ Definition default_options : options := mkOptions default_pc [].
 Definition initial_ctx (o : options) : ctx :=
   let t := fold_left (fun t kv => fst (insert t root (fst kv) (Some (mkSym 0%nat None None (SDNum (snd kv)) TyConstant))))
                      (opt_constants o) empty_tab in
-  mkCtx 0%nat [] None t [] [] root 0%nat 0%nat [].
+  mkCtx 0%nat [] None t [] [] [] root 0%nat 0%nat [].
 
 (* one pass: emit_tokens(main file) then after_pass; returns the diagnostics of emit_tokens *)
 Inductive pass_out := PassOk (errors : list diag) (c : ctx) | PassAbort (f : fault).
@@ -857,7 +884,8 @@ Fixpoint pass_loop (passes fuel : nat) (o : options) (toks : list token) (c : ct
                 | _ :: _ => pass_loop n fuel o toks (next_pass c1) prev_undefined errors
                 | [] =>
                     let und_empty := match undefined c1 with [] => true | _ => false end in
-                    if und_empty && (negb stop_needs_no_new_symbols || negb symbols_added) then Done c1
+                    let chg_empty := match changed c1 with [] => true | _ => false end in
+                    if und_empty && chg_empty && (negb stop_needs_no_new_symbols || negb symbols_added) then Done c1
                     else if (negb unknown_needs_nonempty || negb und_empty) && set_eqb (undefined c1) prev_undefined
                     then Failed (unknown_identifier_errors (undefined c1)) c1
                     else pass_loop n fuel o toks (next_pass (set_undefined c1 [])) (undefined c1) errors
@@ -888,13 +916,3 @@ Definition stale_symbols (c : ctx) : list (ipath * nat * symbol) :=
   filter (fun e => match e with (_, _, s) => Nat.ltb (s_pass s) (pass_idx c) && match s_span s with Some _ => true | None => false end end)
          (all (symbols c)).
 Definition Known_stale_symbol_survives (c : ctx) : bool := match stale_symbols c with [] => false | _ => true end.
-
-(* a failed build whose diagnostics are all "unknown identifier" for names that the table does define *)
-Definition defined_somewhere (c : ctx) (id : ipath) : bool :=
-  existsb (fun e => match e with (p, _, _) => ipath_eqb (skipn (List.length p - List.length id) p) id end) (all (symbols c)).
-Definition Known_changed_reported_unknown (r : result) : bool :=
-  match r with
-  | Failed (d :: ds) c =>
-      forallb (fun x => dkind_eqb (d_kind x) DUnknownIdentifier && defined_somewhere c (d_path x)) (d :: ds)
-  | _ => false
-  end.
